@@ -266,9 +266,10 @@ def run_shard(shard):
                       lambda k, a=(knots, iv, md, sa): B.RationalQuadraticSpline(knots=a[0], interval=a[1], min_derivative=a[2], softmax_adjust=a[3])))
         O.append(("Vmap(RQS)x5", lambda k: B.Vmap(eqx.filter_vmap(lambda: B.RationalQuadraticSpline(knots=5, interval=2), axis_size=5)(), in_axes=eqx.if_array(0))))
         for d in (1, 3):
-            for ns in (None, 0.2):
+            for ns in (None, 0.2, 1.0, 2.5):
                 O.append((f"Planar(dim={d},slope={ns})", lambda k, d=d, ns=ns: B.Planar(k, dim=d, negative_slope=ns)))
         O.append(("Planar(cond)", lambda k: B.Planar(k, dim=3, cond_dim=2, negative_slope=0.3, width_size=4, depth=1)))
+        O.append(("Planar(cond,slope=4)", lambda k: B.Planar(k, dim=2, cond_dim=2, negative_slope=4.0, width_size=4, depth=1)))
         for dep, bd, cd in [(0, 1, None), (1, 2, None), (2, 3, 2)]:
             O.append((f"BNAF(depth={dep},block={bd},cond={cd})", lambda k, a=(dep, bd, cd): B.BlockAutoregressiveNetwork(k, dim=3, cond_dim=a[2], depth=a[0], block_dim=a[1])))
         O.append(("affine_with_min_scale", lambda k: F._affine_with_min_scale(0.05)))
